@@ -228,6 +228,9 @@ structure Delta (o o' : Order) : Prop where
   fills_ge : o.fills ≤ o'.fills
   /-- an order that was filled received something -/
   positive : o'.opn < o.opn → o.received < o'.received
+  /-- a buyer receives exactly the base coin it was filled for; a seller pays exactly that -/
+  buy_recv : o.dir = .buy → o'.received - o.received = o.opn - o'.opn
+  sell_paid : o.dir = .sell → o'.paid - o.paid = o.opn - o'.opn
   /-- a buyer pays at most its limit price for what it got, plus less than one quote unit per fill -/
   buy_price : o.dir = .buy →
     (o'.paid - o.paid) * Dec.P ≤ o.price * (o.opn - o'.opn) + ((o'.fills : Int) - o.fills) * (Dec.P - 1)
@@ -237,7 +240,7 @@ structure Delta (o o' : Order) : Prop where
 
 theorem Delta.refl (o : Order) (hw : Wf o) : Delta o o :=
   ⟨rfl, rfl, rfl, rfl, rfl, rfl, rfl, rfl, hw, by omega, by omega, by omega, by omega, by omega,
-   fun _ => by simp, fun _ => by simp⟩
+   fun _ => by omega, fun _ => by omega, fun _ => by simp, fun _ => by simp⟩
 
 theorem Delta.fill {o o₁ : Order} (a p : Int) (d : Delta o o₁) (g : GoodFill o₁ a p) :
     Delta o (fillRaw o₁ a p).1 := by
@@ -256,12 +259,22 @@ theorem Delta.fill {o o₁ : Order} (a p : Int) (d : Delta o o₁) (g : GoodFill
     | buy => unfold fillRaw; rw [hd]; simp; omega
     | sell => have := g.worth hd; unfold fillRaw; rw [hd]; simp; omega
   refine ⟨by rw [s1, d.id_eq], by rw [s2, d.kind_eq], by rw [s3, d.oid_eq], by rw [s4, d.dir_eq], by rw [s5, d.price_eq],
-    by rw [s6, d.amount_eq], by rw [s7, d.offer_eq], by rw [s8, d.batch_eq], hw', ?_, ?_, ?_, ?_, ?_, ?_, ?_⟩
+    by rw [s6, d.amount_eq], by rw [s7, d.offer_eq], by rw [s8, d.batch_eq], hw', ?_, ?_, ?_, ?_, ?_, ?_, ?_, ?_, ?_⟩
   · rw [hopn]; have := d.opn_le; omega
   · have := d.paid_ge; omega
   · have := d.recv_ge; omega
   · rw [hfills]; have := d.fills_ge; omega
   · intro _; have := d.recv_ge; omega
+  · intro hb
+    have hb1 : o₁.dir = .buy := by rw [d.dir_eq]; exact hb
+    have h0 := d.buy_recv hb
+    have : (fillRaw o₁ a p).1.received = o₁.received + a := by unfold fillRaw; rw [hb1]
+    rw [this, hopn]; omega
+  · intro hs
+    have hs1 : o₁.dir = .sell := by rw [d.dir_eq]; exact hs
+    have h0 := d.sell_paid hs
+    have : (fillRaw o₁ a p).1.paid = o₁.paid + a := by unfold fillRaw; rw [hs1]
+    rw [this, hopn]; omega
   · intro hb
     have hb1 : o₁.dir = .buy := by rw [d.dir_eq]; exact hb
     have hwithin : p ≤ o₁.price := by have := g.within; unfold Within at this; rw [hb1] at this; exact this
